@@ -53,7 +53,7 @@ Section TokPrint.
     | FStr s => Ok (tk1 TSQ (canonical_body s))
     | FRegex p fl => Ok [mkTok TRePattern p; mkTok TReFlags (flags_text fl)]
     | FList items => xs <- exprs_toks items ;; Ok (mkTok TLBracket [91%N] :: sep_by [comma] xs ++ [mkTok TRBracket [93%N]])
-    | FNot r => x <- expr_toks r ;; Ok (mkTok TNot [33%N] :: x)
+    | FNot r => x <- expr_toks r ;; Ok (mkTok TNot [33%N] :: wrap_toks r x)
     | FInfix l o r =>
         a <- expr_toks l ;; b <- expr_toks r ;;
         Ok (if is_logical o then lparen :: (a ++ op_token o :: b) ++ [rparen]
